@@ -9,6 +9,7 @@ From SV Require Import Lib.Base Gen.WireFields Model.WireBase Proofs.WireBasePro
 From SV Require Import Model.WireIgmp Proofs.WireIgmpProofs.
 From SV Require Import Model.WireIpv6Frag Proofs.WireIpv6FragProofs.
 From SV Require Import Model.WireIpv6Ext Proofs.WireIpv6ExtProofs.
+From SV Require Import Model.WireIcmpv6Hdr Proofs.WireIcmpv6HdrProofs Model.WireMld Proofs.WireMldProofs.
 
 (* ---------------- IGMP ---------------- *)
 
@@ -52,3 +53,42 @@ Print Assumptions C07_v6ext_accessors_safe.
 Theorem C07_v6ext_parse_total : forall bs, bytes_ok bs = true -> v6ext_parse bs <> Panic.
 Proof. exact v6ext_parse_total. Qed.
 Print Assumptions C07_v6ext_parse_total.
+
+(* ---------------- ICMPv6 packet view as used by MLD / NDISC, and MLDv2 ----------------
+   The MLD accessors live on icmpv6::Packet; "applicable to the packet's own message type" =
+   the query accessors for type 130, the report accessor for type 143 (check_len validated the
+   header length of exactly that type).  AddressRecordRepr::parse has no check of its own: it
+   is safe on a checked record view. *)
+
+Theorem C07_icmp6h_generic_safe : forall bs, icmp6h_check_len bs = Ok tt ->
+  icmp6h_msg_type bs <> Panic /\ icmp6h_msg_code bs <> Panic /\ icmp6h_checksum bs <> Panic /\
+  icmp6h_header_len bs <> Panic /\ icmp6h_payload bs <> Panic.
+Proof. exact icmp6h_generic_safe. Qed.
+Print Assumptions C07_icmp6h_generic_safe.
+
+Theorem C07_icmp6h_check_len_total : forall bs, icmp6h_check_len bs <> Panic.
+Proof. exact icmp6h_check_len_nopanic. Qed.
+Print Assumptions C07_icmp6h_check_len_total.
+
+Theorem C07_mld_accessors_safe : forall bs, icmp6h_check_len bs = Ok tt ->
+  (icmp6h_msg_type bs = Ok icmp6h_MLD_QUERY ->
+     mld_max_resp_code bs <> Panic /\ mld_mcast_addr bs <> Panic /\ mld_s_flag bs <> Panic /\
+     mld_qrv bs <> Panic /\ mld_qqic bs <> Panic /\ mld_num_srcs bs <> Panic) /\
+  (icmp6h_msg_type bs = Ok icmp6h_MLD_REPORT -> mld_nr_mcast_addr_rcrds bs <> Panic) /\
+  icmp6h_payload bs <> Panic.
+Proof. exact mld_accessors_safe. Qed.
+Print Assumptions C07_mld_accessors_safe.
+
+Theorem C07_mld_parse_total : forall bs, mld_parse bs <> Panic.
+Proof. exact mld_parse_total. Qed.
+Print Assumptions C07_mld_parse_total.
+
+Theorem C07_mld_icmp_parse_total : forall sum_ok rx bs, mld_icmp_parse sum_ok rx bs <> Panic.
+Proof. exact mld_icmp_parse_total. Qed.
+Print Assumptions C07_mld_icmp_parse_total.
+
+Theorem C07_mldrec_accessors_safe : forall bs, mldrec_check_len bs = Ok tt ->
+  mldrec_record_type bs <> Panic /\ mldrec_aux_data_len bs <> Panic /\ mldrec_num_srcs_ bs <> Panic /\
+  mldrec_mcast_addr bs <> Panic /\ mldrec_payload_ bs <> Panic /\ mldrec_parse bs <> Panic.
+Proof. exact mldrec_accessors_safe. Qed.
+Print Assumptions C07_mldrec_accessors_safe.
